@@ -107,7 +107,11 @@ func (i *Int) Add(lhs, rhs *Int) {
 // AddCap sets i = lhs + rhs with capacity capacity.
 // When capacity < 0, it is set to max(lhs.AnnouncedLen(), rhs.AnnouncedLen()) + 1.
 func (i *Int) AddCap(lhs, rhs *Int, capacity int) {
-	(*saferith.Int)(i).Add((*saferith.Int)(lhs), (*saferith.Int)(rhs), capacity)
+	// saferith.Int.Add builds its scratch space from the receiver's current limbs and does not clear it,
+	// so add into a fresh value and copy the result.
+	var sum saferith.Int
+	sum.Add((*saferith.Int)(lhs), (*saferith.Int)(rhs), capacity)
+	i.Set((*Int)(&sum))
 }
 
 // Neg sets i = -x.
